@@ -286,6 +286,52 @@ def one_run(ctx, prop, rng, cfg, script, npool, tag):
             for k in ("eigenvalue", "best", "ledger", "generations", "history"):
                 mod[k] = r.get(k)
         ctx.compare("solver.run", inp, impl, mod)
+    # ------------------------------------------------------------------ the same solver object solves again (nothing may carry over from the first run)
+    if rng.random() < 0.35 and not outcome.startswith("exc"):
+        script2, _ = gen_script(rng)
+        for st in script2:
+            for ev in st["events"]:
+                if ev[0] == "result":
+                    ev[1] = ev[1] % npool
+        cfg2 = dict(gen_cfg(rng), has_crit=cfg["has_crit"])
+        if rng.random() < 0.5:
+            cfg2["max_gen" if rng.random() < 0.5 else "max_evals"] = 0  # stops before anything is evaluated
+        tape.__init__(script2, pool, pop)
+        conf.max_generations, conf.max_circuit_evaluations = cfg2["max_gen"], cfg2["max_evals"]
+        with ThreadPoolExecutor(max_workers=1) as ex2:
+            conf.parallel_executor = ex2
+            try:
+                res2 = solver._solve_by_evolution(circuit_evaluator=evaluator, aux_circuit_evaluators=aux, initial_state_circuit=init)
+                outcome2 = "ok"
+            except StopIteration:
+                res2, outcome2 = None, "exhausted"
+            except TransientFault:
+                res2, outcome2 = None, "fault"
+            except Exception as e:  # noqa: BLE001
+                res2, outcome2 = None, ("raised" if "without having evaluated any population" in str(e) else "exc:" + type(e).__name__ + ":" + str(e)[:60])
+        inp2 = dict(inp, second_run_on_the_same_solver={"cfg": cfg2, "script": script2})
+        ctx.case(inp2, nontrivial=True, tags=["second-run-same-solver", "outcome2:" + outcome2.split(":")[0]])
+        emitted2 = []
+        for (k, _, _) in tape.applied:
+            emitted2.extend(script2[k]["events"])
+        hist2 = [(ev[1], F(ev[2])) for ev in emitted2 if ev[0] == "result"]
+        if outcome2 == "ok" and not hist2:
+            violate("C12", "a run without any evaluated population returned a result instead of raising (second run on the same solver object)")
+        if outcome2 == "ok" and hist2:
+            mn2 = min(v for _, v in hist2)
+            if F(res2.eigenvalue) != mn2 or res2.generations != len(hist2) or len(res2.population_evaluation_results) != len(hist2):
+                violate("C05", "the result of a second run on the same solver object is not consistent with that run's own history",
+                        {"eigenvalue": res2.eigenvalue, "min": float(mn2), "generations": res2.generations, "history": len(hist2)})
+        if drv is not None and not outcome2.startswith("exc"):
+            fault_at2 = next((i for i, st in enumerate(script2) if st.get("fault")), None)
+            r2 = drv.ask({"op": "solver.run", "cfg": cfg2, "script": script2, "fault_at": fault_at2})
+            impl2 = {"outcome": outcome2, "started": len(tape.applied), "totals_at_start": [rep for _, rep, _ in tape.applied]}
+            mod2 = {"outcome": r2["outcome"], "started": r2["started"], "totals_at_start": r2["totals_at_start"]}
+            if outcome2 == "ok":
+                impl2.update({"eigenvalue": rat_str(F(res2.eigenvalue)), "ledger": list(res2.circuit_evaluations), "generations": res2.generations})
+                for k in ("eigenvalue", "ledger", "generations"):
+                    mod2[k] = r2.get(k)
+            ctx.compare("solver.run (second run on the same solver object)", inp2, impl2, mod2)
 
 
 def run_cluster(ctx, prop):
